@@ -50,6 +50,9 @@ type c26CallSpec struct {
 	// "timeout" vctx deadline At units after the call started; "pre" cancelled before Call.
 	Ctx string
 	At  int
+	// After: the call is issued only after the call with that tag has returned (a second
+	// caller thread whose call starts behind a cancelled one).
+	After string
 }
 
 type c26Spec struct {
@@ -57,7 +60,9 @@ type c26Spec struct {
 	// Callers: one thread per entry, each issuing its calls sequentially.
 	Callers [][]c26CallSpec
 	// Peer: answer per request tag (default "ok"):
-	// ok | err | nf | empty | dup | never | late | hangup | garbage
+	// ok | err | nf | empty | dup | never | late | atcancel | hangup | garbage
+	// (late = answered only after the caller has returned from the call; atcancel = answered
+	// as soon as the call's context is done, i.e. the response races with the caller giving up)
 	Peer map[string]string
 	// Order: "fifo" answer every request when read; "lifo" requests that are readable
 	// together are answered in reverse order.
@@ -97,6 +102,9 @@ func (s c26Spec) bounds() map[string]any {
 			if c.Ctx == "cancel" || c.Ctx == "timeout" {
 				p += fmt.Sprintf("@%d", c.At)
 			}
+			if c.After != "" {
+				p += ">" + c.After
+			}
 			p += "/" + s.action(c.Tag)
 			parts = append(parts, p)
 		}
@@ -131,7 +139,7 @@ func (s c26Spec) unmatchedResponses() bool {
 		return true
 	}
 	for _, a := range s.Peer {
-		if a == "late" || a == "dup" {
+		if a == "late" || a == "atcancel" || a == "dup" {
 			return true
 		}
 	}
@@ -154,6 +162,7 @@ var (
 
 type c26CallRec struct {
 	spec     c26CallSpec
+	ctx      context.Context
 	started  bool
 	returns  int
 	payload  []byte
@@ -331,7 +340,7 @@ func (w *c26World) respond(end *c26End, req c26Req, status uint8, text string) b
 // answer handles one request according to the script; false = the peer stops.
 func (w *c26World) answer(end *c26End, req c26Req) bool {
 	act := w.spec.action(req.tag)
-	if w.spec.Stray && !w.straySent && act != "never" && act != "late" && act != "hangup" && act != "garbage" {
+	if w.spec.Stray && !w.straySent && act != "never" && act != "late" && act != "atcancel" && act != "hangup" && act != "garbage" {
 		w.straySent = true
 		hdr, bod := c26EncodeResponse(req, c26StrayID, append([]byte{wire.ResponseOK}, c26StrayBody...))
 		if !w.peerSend(end, hdr, bod) {
@@ -362,6 +371,19 @@ func (w *c26World) answer(end *c26End, req c26Req) bool {
 			defer w.wg.Done()
 			rec := w.calls[req.tag]
 			vsched.WaitUntil("late-responder", func() bool { return rec == nil || rec.returns > 0 || w.dead() })
+			w.respond(end, req, wire.ResponseOK, "resp:"+req.body)
+		})
+		return true
+	case "atcancel":
+		// answered by its own thread as soon as the call's context is done: the response is in
+		// flight while the caller gives up
+		w.wg.Add(1)
+		vsched.GoNamed("atcancel-"+req.tag, func() {
+			defer w.wg.Done()
+			rec := w.calls[req.tag]
+			vsched.WaitUntil("atcancel-responder", func() bool {
+				return rec == nil || rec.returns > 0 || (rec.ctx != nil && rec.ctx.Err() != nil) || w.dead()
+			})
 			w.respond(end, req, wire.ResponseOK, "resp:"+req.body)
 		})
 		return true
@@ -458,6 +480,10 @@ func (w *c26World) caller(c *Conn, calls []c26CallSpec) {
 	defer func() { w.callersLeft--; vsched.Progress() }()
 	for _, cs := range calls {
 		rec := w.calls[cs.Tag]
+		if cs.After != "" {
+			prev := w.calls[cs.After]
+			vsched.WaitUntil("caller: gated on "+cs.After, func() bool { return prev == nil || prev.returns > 0 })
+		}
 		ctx := context.Background()
 		var cancel context.CancelFunc
 		var th vsched.TimerHandle
@@ -476,6 +502,7 @@ func (w *c26World) caller(c *Conn, calls []c26CallSpec) {
 			ctx, cancel = context.WithCancel(ctx)
 			cancel()
 		}
+		rec.ctx = ctx
 		rec.started = true
 		resp, err := c.Call(ctx, Outbound{Priority: core.PriorityRPC, ServiceID: 7, Payload: core.CopyOwnedBuffer([]byte("req-" + cs.Tag))})
 		rec.returns++
@@ -687,6 +714,7 @@ func c26Bg(tag string) c26CallSpec              { return c26CallSpec{Tag: tag, C
 func c26Cancel(tag string, at int) c26CallSpec  { return c26CallSpec{Tag: tag, Ctx: "cancel", At: at} }
 func c26Timeout(tag string, at int) c26CallSpec { return c26CallSpec{Tag: tag, Ctx: "timeout", At: at} }
 func c26Pre(tag string) c26CallSpec             { return c26CallSpec{Tag: tag, Ctx: "pre"} }
+func c26After(c c26CallSpec, prev string) c26CallSpec { c.After = prev; return c }
 
 func c26Specs(r *ev.R) []c26Spec {
 	b := ev.Pick(r, 2, 3)
@@ -711,6 +739,13 @@ func c26Specs(r *ev.R) []c26Spec {
 			Peer: map[string]string{"a2": "empty", "b2": "hangup"}, Bound: b},
 		// write queue of one item: admission failure of a call while another one is queued
 		{Name: "rpc-queue-of-one", Callers: [][]c26CallSpec{c26Calls(c26Bg("a1")), c26Calls(c26Bg("b1"), c26Bg("b2"))}, QueueItems: 1, Order: "lifo", Bound: b},
+		// the response of a cancelled / timed-out call is in flight (or already delivered) when the
+		// caller gives up, and ANOTHER call starts after the cancelled one returned
+		{Name: "rpc-cancel-answered-normally-next-call", Callers: [][]c26CallSpec{c26Calls(c26Cancel("a1", 1), c26Bg("a2")), c26Calls(c26Bg("b1"))}, Bound: b},
+		{Name: "rpc-cancel-answer-at-cancel-next-call", Callers: [][]c26CallSpec{c26Calls(c26Cancel("a1", 1), c26Bg("a2"))},
+			Peer: map[string]string{"a1": "atcancel"}, Bound: b},
+		{Name: "rpc-deadline-answer-at-cancel-other-caller-never", Callers: [][]c26CallSpec{c26Calls(c26Timeout("a1", 1)), c26Calls(c26After(c26Bg("b1"), "a1"))},
+			Peer: map[string]string{"a1": "atcancel", "b1": "never"}, CloseAt: 2, Bound: b},
 		// three concurrent calls
 		{Name: "rpc-3calls-ok-lifo-stray", Callers: three, Order: "lifo", Stray: true, Bound: b},
 		{Name: "rpc-3callers-cancel-before-reset", Callers: [][]c26CallSpec{c26Calls(c26Cancel("a1", 1), c26Bg("a2")), c26Calls(c26Bg("b1")), c26Calls(c26Timeout("c1", 3))},
